@@ -98,7 +98,7 @@ def layer_role(cfg, v, nlayers):
 
 
 class Overlay:
-    def __init__(self, sr, u, cfg, nlayers, lens=(1, 0, 2), layer_kind='mem'):
+    def __init__(self, sr, u, cfg, nlayers, lens=(1, 0, 2), layer_kind='mem', lower_markers=False):
         self.sr, self.u, self.cfg, self.n = sr, u, cfg, nlayers
         ex = sr.ex
         self.layer_trees = []
@@ -118,6 +118,14 @@ class Overlay:
             shape = tuple((v, k) for v, k, s in cfg if i in s)
             t = st.build(shape, prefix='L%d_' % i, lens=lens[i:] + lens[:i], tag='c%d' % i)
             self.layer_trees.append(t)
+            if lower_markers and i >= 1:
+                # a lower layer that was once the upper layer of another overlay: it carries markers of its own
+                sr.do('join L%d_wo L%d %s' % (i, i, hx(b'.whiteout')))
+                sr.do('create_dir L%d_wo' % i)
+                for n_ in u.nodes:
+                    if n_.parent == 'R' and n_.name is not None:
+                        sr.do('join L%d_wo_%s L%d_wo %s' % (i, n_.var, i, hx((n_.name + '_wo').encode())))
+                        sr.do('write L%d_wo_%s 00' % (i, n_.var))
         sr.do('fs R ovl ' + ' '.join('L%d' % i for i in range(nlayers)))
         st.define_paths('R')
         # merged model: first layer that has the path wins
@@ -134,7 +142,7 @@ class Overlay:
         if callee.startswith('<dyn FileSystem as FileSystem>::') and args:
             recv = deref(args[0])
             meth = callee.rsplit('::', 1)[1]
-            if self.layer_kind == 'physshared':
+            if self.layer_kind in ('physshared', 'memsub'):
                 if recv is self.layer_fs[0] and len(args) > 1:
                     # copy_file(src, dst) mutates dst only; move_* mutate both (src logged by the loop below as well)
                     p_ = S(deref(args[2] if meth == 'copy_file' and len(args) > 2 else args[1]))
@@ -183,7 +191,7 @@ def run_history_case(prog, params):
                 sr.outcomes.append((line, sr.last))
                 return r
             sr.do = do
-            ov = Overlay(sr, u, cfg, n, layer_kind=params.get('layer_kind', 'mem'))
+            ov = Overlay(sr, u, cfg, n, layer_kind=params.get('layer_kind', 'mem'), lower_markers=params.get('lower_markers', False))
             t = ov.model
             removed = set()
             names = 'ovl%d' % n
@@ -194,8 +202,17 @@ def run_history_case(prog, params):
                     lsnap = snapshot(sr, u, prefix='L%d_' % li)
                     ld, lo = compare_tree(sr, u, lsnap, ov.layer_trees[li], prefix='L%d_' % li)
                     for dv, kind, detail in ld:
+                        if kind == 'foreign' and params.get('lower_markers') and '.whiteout' in detail:
+                            continue        # the markers this lower layer was given initially (checked one by one below)
                         findings.append(make_finding('C08', '%s|layer%d_changed:%s' % (key_base, li, kind),
                                                      'layer %d changed by %s %s: %s %s' % (li, op, v, dv, detail), sr))
+                    if params.get('lower_markers'):
+                        for n_ in u.nodes:
+                            if n_.parent == 'R' and n_.name is not None:
+                                sr.do('exists L%d_wo_%s' % (li, n_.var))
+                                if sr.last.ok and sr.last.value is not True:
+                                    findings.append(make_finding('C08', '%s|layer%d_changed:marker_removed' % (key_base, li),
+                                                                 'layer %d lost its own marker for %s after %s %s' % (li, n_.var, op, v), sr))
                     for dv, kind, cond in lo:
                         m = ex.check(cond, 'layer bytes')
                         if m is not None:
@@ -283,8 +300,11 @@ def run_history_case(prog, params):
                         pr, sym = 'C10', 'bookkeeping_visible@%s' % ('root' if dv == 'R' else 'dir')
                     elif was_removed and t_next.kind(dv) == 'absent':
                         pr, sym = 'C10', 'removed_entry_visible:%s' % kind
-                    elif kind in ('bytes', 'len') and dv in removed:
-                        pr, sym = 'C10', 'recreated_not_fresh'
+                    elif dv in removed:
+                        # an entry that was removed and re-created must be the fresh one: wrong type, stale bytes, old children
+                        pr, sym = 'C10', 'recreated_not_fresh' + ('' if kind in ('bytes', 'len') else ':' + kind)
+                        if 'C09' in props or params.get('tag', 'C09') in props:
+                            findings.append(make_finding(params.get('tag', 'C09'), key_base + '|%s:%s' % (what, kind), '%s after %s %s: %s %s' % (what, op, v, dv, detail), sr))
                     elif kind == 'listing' and any(u.parent(rv) == dv for rv in removed | ({v} if op.startswith('remove') and o.ok else set())):
                         # a listing of a directory from which something was removed is wrong: both properties speak about it
                         pr, sym = 'C10', 'listing_after_removal'
